@@ -799,6 +799,23 @@ fn canon_sequences(rep: &mut Report, tier: Tier) {
     rep.absorb(t);
 }
 
+/// Free-running concurrency pass (sampled schedules): eight threads canonicalize at the same time.
+fn canon_concurrent(rep: &mut Report) {
+    let mut docs: Vec<String> = ["1e21", "0.000001", "123456789012345680000", "5e-324", "-0", "1.50", "9007199254740993", "8.000000000000001"].iter().map(|n| format!("[{n},{{\"b\":{n},\"a\":[{n}]}}]")).collect();
+    docs.push("{\"\u{e000}\":1,\"\u{10000}\":2,\"a\":{\"z\":0,\"\u{ffff}\":[1.0,2e0]}}".to_string());
+    docs.push("{\"k-longer-than-sixteen-bytes-1\":1,\"k-longer-than-sixteen-bytes-0\":2}".to_string());
+    let mut t = Tally::new();
+    match explore::concurrent_agreement(8, 40, docs.len(), |i| canon_doc(&docs[i])) {
+        Ok(k) => {
+            t.evals += k;
+            t.outcome("concurrent canonicalizations agree with sequential ones (sampled schedules)");
+        }
+        Err(e) => t.violation("", format!("canonical output differs when 8 threads canonicalize at the same time: {e}"), json!({"kind": "concurrent"})),
+    }
+    rep.bounds["concurrent"] = json!({"threads": 8, "rounds": 40, "documents": docs.len(), "schedules": "free-running (sampled, not enumerated)"});
+    rep.absorb(t);
+}
+
 fn c10_documents(rep: &mut Report, tier: Tier) {
     // spellings of about the precision of a double: all of those that denote the same double
     // (std's correctly rounded parser decides) must canonicalise identically
@@ -998,6 +1015,7 @@ fn main() {
             keys_family(&mut rep, args.tier, "C09");
             prefixed_keys_family(&mut rep, args.tier, "C09");
             canon_sequences(&mut rep, args.tier);
+            canon_concurrent(&mut rep);
             numbers_family(&mut rep, args.tier);
             pumped(&mut rep, args.tier, "C09");
             rep.tally.sample(json!({"value": "{\"\\ud800\\udc00\":1,\"\\ue000\":2}", "canonical": canon::canonical(&RV::Obj(vec![("\u{10000}".into(), RV::num("1")), ("\u{e000}".into(), RV::num("2"))]))}));
@@ -1011,6 +1029,7 @@ fn main() {
             keys_family(&mut rep, args.tier, "C10");
             prefixed_keys_family(&mut rep, args.tier, "C10");
             canon_sequences(&mut rep, args.tier);
+            canon_concurrent(&mut rep);
             c10_documents(&mut rep, args.tier);
             pumped(&mut rep, args.tier, "C10");
             rep.tally.sample(json!({"number": "1.5e2", "respellings_all_canonicalising_to": canon::canonical_number("1.5e2"), "respellings": respellings("1.5e2")}));
